@@ -2452,6 +2452,20 @@ h2_send_headers (request_st * const r, connection * const con)
         status[9]   = '0' + nx;               /* (x / 100) */
     }
 
+    /* check size of expanded headers before encoding anything: fields already
+     * passed to the encoder update the HPACK dynamic table shared with peer,
+     * so the header block must not be abandoned once encoding has begun */
+    for (uint32_t i = 0, used = r->resp_headers.used, tlen = alen; i < used;++i){
+        const data_string * const ds = (data_string *)r->resp_headers.data[i];
+        const uint32_t klen = buffer_clen(&ds->key);
+        const uint32_t vlen = buffer_clen(&ds->value);
+        if (0 == klen || 0 == vlen) continue;
+        if ((tlen += klen + vlen + 4) > LSXPACK_MAX_STRLEN) {
+            h2_send_rst_stream(r, con, H2_E_INTERNAL_ERROR);
+            return;
+        }
+    }
+
     dst = lshpack_enc_encode(encoder, dst, dst_end, &lsx);
     if (dst == (unsigned char *)tb->ptr) {
         h2_send_rst_stream(r, con, H2_E_INTERNAL_ERROR);
